@@ -1,4 +1,7 @@
-// spike harness module appended to src/core/stat/base/leap_array.rs in a scratch copy (design phase only)
+// spike harness module appended to src/core/stat/base/leap_array.rs in a scratch copy (design phase only).
+// In-place contract attributes used with it:
+//   BucketWrap::reset_start_stamp: #[cfg_attr(kani, kani::modifies(self.start_stamp.as_ptr()))] #[cfg_attr(kani, kani::ensures(|_r| self.start_stamp() == start_stamp))]
+//   BucketWrap::is_deprecated:     #[cfg_attr(kani, kani::ensures(|r: &bool| *r == (now > self.start_stamp() && now - self.start_stamp() > interval)))]
 #[cfg(kani)]
 mod kani_spike {
     use super::*;
@@ -21,9 +24,22 @@ mod kani_spike {
         b.reset_start_stamp(kani::any());
     }
 
+    fn stub_err_msg<M>(_m: M) -> crate::Error
+    where M: std::fmt::Display + std::fmt::Debug + Send + Sync + 'static {
+        kani::assert(false, "contract: no Err on this domain");
+        kani::assume(false);
+        loop {}
+    }
+    static mut G_KN: u64 = 0;
+    fn stub_idx<T: MetricTrait>(_s: &LeapArray<T>, _now: u64) -> u64 { unsafe { G_KN % 2 } }
+    fn stub_start<T: MetricTrait>(_s: &LeapArray<T>, _now: u64) -> u64 { unsafe { G_KN * 500 } }
+
     // symbolic ring state, concrete geometry 2 x 500ms
     #[kani::proof]
-    #[kani::unwind(2)]
+    #[kani::stub(anyhow::Error::msg, stub_err_msg)]
+    #[kani::stub(LeapArray::time2idx, stub_idx)]
+    #[kani::stub(LeapArray::calculate_start_stamp, stub_start)]
+    #[kani::unwind(3)]
     #[kani::stub(std::backtrace::Backtrace::capture, std::backtrace::Backtrace::disabled)]
     fn step_get_bucket_of_time() {
         let arr = LeapArray::<AtomicU64> {
@@ -51,6 +67,7 @@ mod kani_spike {
         arr.array[0].value().store(v0, Ordering::SeqCst);
         arr.array[1].value().store(v1, Ordering::SeqCst);
         let ts: u64 = (kn as u64) * 500;
+        unsafe { G_KN = kn as u64; }
         let now: u64 = ts + off as u64;
         let r = arr.get_bucket_of_time(now);
         let b = match r { Ok(b) => b, Err(_) => { assert!(false); return; } };
